@@ -567,6 +567,17 @@ pub fn gen_edge_cfg(t: &mut Tape) -> (Cfg, bool) {
 /// A maximum line length shorter than a header line destroys the construct markers themselves
 /// (delta truncates every input line before parsing it); keep it above every non-hunk line.
 pub fn keep_headers_intact(cfg: &mut Cfg, lines: &[crate::gen::diff::InLine]) {
+    keep_headers_intact_except(cfg, lines, false)
+}
+
+/// As above; with `hunk_headers_may_exceed` the `@@` lines are left out of the computation: delta
+/// documents that long hunk headers are not truncated, so a limit below their length is in scope
+/// wherever the check does not read the fragment text back.
+pub fn keep_headers_intact_except(cfg: &mut Cfg, lines: &[crate::gen::diff::InLine], hunk_headers_may_exceed: bool) {
+    if hunk_headers_may_exceed {
+        let l2: Vec<crate::gen::diff::InLine> = lines.iter().filter(|l| !matches!(l.role, crate::gen::diff::Role::HunkHeader { .. })).cloned().collect();
+        return keep_headers_intact_except(cfg, &l2, false);
+    }
     if let Some(m) = cfg.get("max-line-length").and_then(|v| v.parse::<usize>().ok()) {
         if m > 0 {
             let longest = lines.iter().filter(|l| !matches!(l.role, crate::gen::diff::Role::Hunk { .. })).map(|l| l.text.len()).max().unwrap_or(0);
